@@ -329,7 +329,19 @@ void Image::load(FILE* f) {
     }
 
     bool reverse_row_order = header.info_header.height < 0;
-    fseek(f, header.file_header.data_offset, SEEK_SET);
+    if (fseek(f, header.file_header.data_offset, SEEK_SET) != 0) {
+      // Either the stream can't seek at all (a pipe), or the file ends before
+      // the pixel data and the stream refuses to seek past its end (fmemopen).
+      // Skip forward by reading instead; this throws if the data isn't there,
+      // rather than decoding whatever follows the header as pixels.
+      size_t header_end = sizeof(header.file_header) + header.info_header.header_size;
+      if (header.file_header.data_offset < header_end) {
+        throw runtime_error("cannot seek to pixel data in bitmap file");
+      }
+      for (size_t z = header_end; z < header.file_header.data_offset; z++) {
+        fgetcx(f);
+      }
+    }
     bool has_alpha;
     int32_t w = header.info_header.width;
     int32_t h = header.info_header.height * (reverse_row_order ? -1 : 1);
